@@ -1,7 +1,7 @@
 from .token import Token
 from typing import Any
 from abc import abstractmethod
-from ...errors import InvalidArgumentsError
+from ...errors import InvalidArgumentsError, MismatchError, ExceededLimitError
 from ...environments.environment import Environment
 
 
@@ -37,7 +37,18 @@ class Operator(Token):
                 on parse tree creation. This error cannot and should 
                 not occur under any circumstances""",
             )
-        return self.solve_operand(self.left.solve(), self.right.solve())
+        left, right = self.left.solve(), self.right.solve()
+        try:
+            return self.solve_operand(left, right)
+        except TypeError:
+            raise MismatchError(
+                self.stack,
+                f"Operand {self.value} is not supported for type '{left}' and '{right}'",
+            )
+        except OverflowError:
+            raise ExceededLimitError(
+                self.stack, f"The result of operand {self.value} is too large."
+            )
 
     @abstractmethod
     def solve_operand(self, left: Any, right: Any) -> Any:
